@@ -416,6 +416,13 @@ class SigmaRuleBase:
         parsed_rule = yaml.load(rule, SigmaYAMLLoader)
         if parsed_rule is None:
             parsed_rule = {}
+        if not isinstance(parsed_rule, dict):  # a list or scalar document is no rule
+            error = sigma_exceptions.SigmaTypeError("Sigma rule must be a YAML map")
+            if not collect_errors:
+                raise error
+            result = cls.from_dict({}, collect_errors)
+            result.errors.insert(0, error)
+            return result
         return cls.from_dict(parsed_rule, collect_errors)
 
     def to_dict(self: Self) -> dict[str, Any]:
